@@ -69,6 +69,7 @@ type synObs struct {
 	stepBase    int  // index offset of the chunk being run
 	lastLearned int  // global index of the last step in which a head above everything known was learned
 	sequential  bool // no other delivery is in flight: the verdict of a stale header is decidable
+	stopped     bool // the Syncer was stopped by the script
 }
 
 type synWorld struct {
@@ -213,6 +214,20 @@ func (sw *synWorld) runSteps(p synP, obs *synObs) {
 		case "getter":
 			sw.setMode(st.Mode)
 			obs.classes = append(obs.classes, "getter:"+st.Mode)
+		case "stop":
+			// the Syncer is stopped while the Subscriber keeps delivering: the registered verifier still has to refuse
+			// whatever does not verify
+			sctx, sc := context.WithTimeout(context.Background(), time.Minute)
+			err := sw.syn.Stop(sctx)
+			sc()
+			if err != nil {
+				c.Violation("syncer-stop-fails", fmt.Sprint(err), nil)
+				return
+			}
+			sw.started = false
+			obs.stopped = true
+			c.Count("syncer_stops", 1)
+			obs.classes = append(obs.classes, "stop")
 		case "restart":
 			sctx, sc := context.WithTimeout(context.Background(), time.Minute)
 			err := sw.syn.Stop(sctx)
@@ -387,6 +402,10 @@ func TestC03(t *testing.T) {
 			default:
 				p.Steps = append(p.Steps, synStep{Op: "quiesce"})
 			}
+		}
+		if i%5 == 4 {
+			p.Steps = append(p.Steps, synStep{Op: "quiesce"}, synStep{Op: "stop"},
+				synStep{Op: "gossip", Kind: vh.VForgedRightLink, DH: 1}, synStep{Op: "gossip", Kind: vh.VWrongChain, DH: 0}, synStep{Op: "gossip", Kind: vh.VForgedWrongLink, DH: -2})
 		}
 		mon.Emit(r, "script", p, "script")
 	}
